@@ -53,6 +53,9 @@ def gen_cases(ctx):
         c["rm_jobs"] = rng.random() < 0.75
         c["initial_reset"] = rng.random() < 0.3
         c["abandon_after"] = rng.choice([None, None, 1, 2, 3, rng.randint(1, 8)])
+        # the graph and its updater may also be created when some operations are already
+        # dispatched (judged from the next dispatch on)
+        c["attach_after"] = rng.choice([0, 0, 0, 1, 2, rng.randint(1, 8)])
         yield c
 
 
@@ -95,6 +98,12 @@ def run_case(ctx, case):
     rng = random.Random(case["seed"])
     run = Run(case["instance"], case.get("filter"))
     d, r = run.d, run.r
+    late = min(case.get("attach_after", 0), r.num_ops - 1)
+    for _ in range(late):
+        o, m = run.choose(rng, rng.choice(gen.POLICIES))
+        run.dispatch(o, m)
+    if late:
+        ctx.count("updater_attached_mid_episode")
     if case["builder"] == "custom":
         g0 = custom_graph(run.instance, random.Random(case["seed"] + 5))
     else:
@@ -124,7 +133,7 @@ def run_case(ctx, case):
     else:
         upd = ResidualGraphUpdater(d, g0, **kwargs)
     if case["initial_reset"]:
-        d.reset()
+        d.reset(); r.reset()
     ctx.count("builder_" + case["builder"])
     N = r.num_ops
     prev_removed = set()
